@@ -102,7 +102,9 @@ type pool struct {
 	first  map[string][]*key // first 4 serialized bytes -> pool keys
 }
 
-func (p *pool) id(k *key) string { return fmt.Sprintf("%x|%d|%d|%s|%s", k.ser, k.ty, k.curve, k.x, k.y) }
+func (p *pool) id(k *key) string {
+	return fmt.Sprintf("%x|%d|%d|%s|%s", k.ser, k.ty, k.curve, k.x, k.y)
+}
 
 func (p *pool) add(k *key) *key {
 	if q, ok := p.byName[p.id(k)]; ok {
